@@ -7,7 +7,7 @@ THEOREMS_C15 = ["Slock.C15V." + t for t in (
     "set_refines", "unset_refines", "incr_refines", "append_refines", "shift_refines", "push_refines", "pop_refines",
     "processFrame_returns", "refused_unchanged", "parser_refused_unchanged", "wf_cell_len_prefix",
     "pipeline_partial", "pipeline_empty",
-    "pipeline_not_sequential_counterexample", "pop_zero_length_element_counterexample",
+    "pipeline_not_sequential_counterexample", "pop_zero_length_element_repaired",
     "shift_beyond_length_repaired", "incr_short_operand_props_repaired", "incr_short_operand_no_cell_repaired")] + ["Slock.Value.consts_tie"]
 THEOREMS_C13 = ["Slock.C13V." + t for t in (
     "no_panic", "sane_preserved", "no_panic_run", "no_panic_run_wf", "no_panic_process_lock_data",
